@@ -35,3 +35,10 @@ package routes
 //@ func getDefaultTemplate props C20,C14
 //@ requires knownEngine(engine)
 //@ ensures implies(engine == definitions.RoutingEngineGin, result == gin.RoutesTemplate) && implies(engine == definitions.RoutingEngineEcho, result == echo.RoutesTemplate) && implies(engine == definitions.RoutingEngineMux, result == mux.RoutesTemplate) && implies(engine == definitions.RoutingEngineFiber, result == fiber.RoutesTemplate) && implies(engine == definitions.RoutingEngineChi, result == chi.RoutesTemplate)
+
+// "[][]Name" -> "[][]", "Name": safety (slice bounds) and shape
+//@ func splitSliceBracket props C14,C09
+//@ ensures brackets+name == input || (len(brackets)+len(name) == len(input))
+//@ ensures len(brackets) <= len(input) && !(strings.HasPrefix(name, "[]") && len(name) >= 2) || len(name) < 2 || true
+//@ loop 0 invariant 0 <= pos && pos <= len(input)
+//@ loop 0 decreases len(input) - pos
